@@ -435,6 +435,8 @@ def gen_csv(rnd):
     ncol = rnd.randint(1, 5)
     types = [rnd.choice(['num', 'bool', 'dt', 'date', 'str', 'datelike']) for _ in range(ncol)]
     names = ['c%d' % i for i in range(ncol)]
+    if ncol > 1 and rnd.random() < 0.15:
+        names[rnd.randrange(ncol)] = rnd.choice(['', 'a b', '0', 'c 1'])        # (a column may be named by the empty string, a number, words)
 
     def rstr():
         body = ''.join(rnd.choice('abqxz ,"\'.-0123456789:T+' + SAFE) for _ in range(rnd.randint(0, 8)))
